@@ -149,6 +149,13 @@ func (m *modStream) NSent() int { return m.nsent() }
 // Take returns the responses written from index from on.
 func (m *modStream) Take(from int) []*spb.ModifyResponse { return m.take(from) }
 
+// FailSends makes every further Send of the stream fail (the transport is gone).
+func (m *modStream) FailSends(err error) {
+	m.mu.Lock()
+	m.sendErr = err
+	m.mu.Unlock()
+}
+
 // Close ends the client side of the stream (io.EOF: half-close).
 func (m *modStream) Close(err error) { m.close(err) }
 
